@@ -1,26 +1,22 @@
-// impl_driver: runs the real anweiss/cddl crate on one case per input line.
-// Line protocol: <cmd>\t<arg>... ; one output line per input line.
-// Text arguments are hex-encoded UTF-8 unless stated otherwise.
+// Shared helpers for the per-property driver binaries (src/bin/<prop>.rs).
+// Line protocol: <cmd>\t<arg>... ; one output line per input line (unless a command
+// documents otherwise). Binary / text arguments are hex-encoded.
 use std::io::{self, BufRead, Write};
-
-mod c11;
 
 pub fn unhex(s: &str) -> Vec<u8> {
   hex::decode(s).unwrap_or_default()
 }
 pub fn unhex_str(s: &str) -> String {
-  String::from_utf8(unhex(s)).unwrap_or_default()
+  String::from_utf8_lossy(&unhex(s)).into_owned()
+}
+pub fn hex_of(s: &str) -> String {
+  hex::encode(s.as_bytes())
 }
 
-fn dispatch(parts: &[&str]) -> String {
-  match parts[0] {
-    "D" => c11::decode(parts),
-    "DSWEEP" => c11::sweep(parts),
-    _ => "?".to_string(),
-  }
-}
-
-fn main() {
+/// Run `dispatch` on every stdin line under catch_unwind; a panic prints PANIC.
+/// Output is flushed per case so that an abort (allocation failure, stack overflow)
+/// does not lose earlier results.
+pub fn serve(dispatch: fn(&[&str]) -> String) {
   std::panic::set_hook(Box::new(|_| {}));
   let stdin = io::stdin();
   let stdout = io::stdout();
@@ -33,8 +29,6 @@ fn main() {
       Ok(s) => writeln!(out, "{}", s).unwrap(),
       Err(_) => writeln!(out, "PANIC").unwrap(),
     }
-    // flush per case: an abort (allocation failure, stack overflow) must not lose earlier results
     out.flush().unwrap();
   }
-  out.flush().unwrap();
 }
